@@ -274,6 +274,15 @@ def rule_dedup(ctx: Ctx, rule: str = "C12.dedup"):
             rep.check(rid == f"str(id({fo.params[1]}))" and show(v.args[0]) == fo.params[1], rule, fo.loc(),
                       "the provider id in the key is id(obj): the same object attached twice gives the same keys, two objects never do", fo.key,
                       f"return {show(v)}")
+            attrs = v.args[1] if len(v.args) > 1 else next((k.value for k in v.keywords if k.arg == "all_attrs"), None)
+            atxt = show(attrs) if attrs is not None else ""
+            obj = fo.params[1]
+            dirs = [c_ for c_ in ast.walk(attrs) if isinstance(c_, ast.Call) and show(c_.func) == "dir"] if attrs is not None else []
+            ok_a = bool(dirs) and all(len(c_.args) == 1 and show(c_.args[0]) == obj for c_ in dirs)
+            rep.check(ok_a, "C12.allproviders", fo.loc(),
+                      "a provider offers what `dir()` of the attached object itself lists at attach time (instance attributes, "
+                      "`__dir__`/`__getattr__` delegators, handlers added to its class later) - not a per-class or cached view", fo.key,
+                      f"all_attrs = {atxt}")
     rep.floor(rule, "constructing paths of Listener.from_obj", n, 1)
     # keys of callables that belong to no provider must identify the callable, not only its name
     sc = ctx.fn("Listeners._search_callable")
